@@ -28,6 +28,9 @@ def run(chk, st, tier):
             k += 1
             ops = [("W" if c == "W" else pools[sh.name][i % 3]) for i, c in enumerate(h)]
             ws.append(Fm.Workload(sh, k % 3, 1 + k % 2, ops, "exhaustive"))
+    # pages whose (compressed) data exceeds 64 KiB, and values beyond 64 KiB: sinks are then written in large single calls
+    ws += Fm.big_workloads(shapes, codecs=(0, 1) if tier == "quick" else (0, 1, 2), plans=((10000, 12000),))
+    ws += [w for w in Fm.long_string_workloads(rng, shapes, sizes=(70000,)) if w.shape.name == "person"][:1 if tier == "quick" else 3]
     # fault-free pass to learn the number of sink writes
     lines = Fm.shape_lines(shapes) + [w.line("w%d" % i) for i, w in enumerate(ws)]
     impl, model, e1, e2 = C.run_cases(lines, "C09-base", impl_cmd=[runner])
@@ -82,7 +85,7 @@ def run(chk, st, tier):
     if plan:
         i, kf = plan[len(plan) // 2]
         chk.sample({"workload": ws[i].describe(), "fail_at_sink_write": kf, "implementation": (impl_f.get("f%d_%d" % (i, kf)) or "")[:80], "model": (model_f.get("f%d_%d" % (i, kf)) or "")[:80]})
-    chk.coverage["rule"] = ("every Add/Write history up to length %d (quick: half of the longest) over 5 shapes, 3 codecs, page sizes 1..2; for each, EVERY index k of the sink Write call that fails (k = 0 .. number of sink writes - 1); "
+    chk.coverage["rule"] = ("every Add/Write history up to length %d (quick: half of the longest) over 5 shapes, 3 codecs, page sizes 1..2, plus numeric files with 80 KB pages and a file with 70 KB string values; for each, EVERY index k of the sink Write call that fails (k = 0 .. number of sink writes - 1); "
                             "the real writer's per-call error flags and the writes that reached the sink are compared with the model's (run_fault over the model's sink-write sequence). distinct = distinct (workload,k)." % maxlen)
     chk.coverage["explanation"] = "sink_fault_reported / run_fault_hit (coq/props/C09.v): in the model every fault is reported by the call in which it happens; the enumeration ties the model's sink-write sequence and error propagation to the code."
     chk.assumptions += ['error propagation in the model is by construction; the enumeration over every k is what ties it to the code', 'a sink that returns an error has written nothing (the harness sink returns 0, err)']
